@@ -18,7 +18,7 @@ pub fn def() -> PropDef {
         job_level,
         run_job,
         replay,
-        rule: "configs: every action-menu entry on key a (b, c plain) [U1, including latching and on-idle entries] + the curated feature-interaction configs [U3]. Loop twin: a transcription of the control structure of start_processing_loop over a logical ms clock; everything inside is the real code (can_block_update_idle_waiting, handle_input_event, tick_ms). Steps: E(k) = an input event that begins a millisecond (event + the tick the loop runs with it), B(k) = a further event in the same millisecond (no tick), G(n) = n ms without input. Histories: ALL physically consistent sequences of D steps over {E/B press/release of a,b,c, G(1), G(7), G(40)} followed by G(60). Each history is executed twice on fresh real instances: mode A blocks (executes no tick) in every ms in which can_block_update_idle_waiting(1) is true, mode B always ticks. Oracle: (i) the output event lists with logical-ms stamps are identical in A and B (nothing postponed, nothing different after the gap); (ii) in mode B, every tick taken in a state where blocking was allowed emits nothing and leaves the state digest (hooks H1/H2) unchanged (stutter invariance: by determinism this extends the equality to every gap length and continuation). Long-gap family: gaps of 1100 and 70000 ms on curated configs.",
+        rule: "configs: every action-menu entry on key a (b, c plain) [U1, including latching and on-idle entries] + the curated feature-interaction configs [U3]. Loop twin: a transcription of the control structure of start_processing_loop over a logical ms clock; everything inside is the real code (can_block_update_idle_waiting, handle_input_event, tick_ms). Steps: E(k) = an input event that begins a millisecond (event + the tick the loop runs with it), B(k) = a further event in the same millisecond (no tick), G(n) = n ms without input. Histories: ALL physically consistent sequences of D steps over {E/B press/release of a,b,c, G(1), G(7), G(40)} followed by G(60). Each history is executed twice on fresh real instances: mode A blocks (executes no tick) in every ms in which can_block_update_idle_waiting(1) is true, mode B always ticks. Oracle: (i) the output event lists with logical-ms stamps are identical in A and B (nothing postponed, nothing different after the gap); (ii) in mode B, every tick taken in a state where blocking was allowed emits nothing and leaves the state digest (hooks H1/H2) unchanged (stutter invariance: by determinism this extends the equality to every gap length and continuation). Long-gap family: gaps of 1100 and 70000 ms on curated configs. Conformance family (binds the twin to the code; wall clock, not exhaustive, reported under traces_validated_against_impl/counters): 25 scripted traces (plain, layers, tap-hold tap/hold/after long idle, one-shot, macro, tap-dance, chords, sequences, caps-word, hold-for-duration, on-idle) are run against the REAL Kanata::start_processing_loop (own thread, std mpsc channel, real clock, margins >= 10x) and must produce the outputs the twin predicts and execute no more than 3x+150 of the twin's ticks (i.e. really block).",
         assumptions: &[
             "the real thread interleavings of the processing thread with the OS event thread and the TCP thread are not explored (std/parking_lot primitives are invisible to loom/shuttle); all access to Kanata is under one mutex, so every interleaving is a sequence of whole critical sections, which is what the twin's alphabet enumerates",
             "scheduler jitter (ms_elapsed 2..10) is not modelled here",
@@ -192,6 +192,8 @@ struct Job {
     first: usize,
     long: bool,
     level: u32,
+    /// Some(i) = conformance trace i against the real start_processing_loop (wall clock)
+    conf: Option<usize>,
 }
 
 fn jobs(tier: Tier) -> &'static Vec<Job> {
@@ -205,6 +207,10 @@ fn jobs(tier: Tier) -> &'static Vec<Job> {
         let menu: Vec<MenuItem> = action_menu(5).into_iter().filter(|m| !m.tag.starts_with("lrld")).collect();
         let o = CfgOpts::default();
         let mut v = vec![];
+        // conformance traces first: they are wall-clock and run best before the CPU-heavy jobs
+        for i in 0..super::conform::TRACES.len() {
+            v.push(Job { tag: format!("conformance/{}", super::conform::TRACES[i].tag), cfg: super::conform::TRACES[i].cfg.to_string(), depth: 0, first: 0, long: false, level: 0, conf: Some(i) });
+        }
         let levels: &[(u32, usize, usize)] = match tier {
             Tier::Quick => &[(0, 4, 4)],
             Tier::Thorough => &[(0, 4, 4), (1, 5, 5), (2, 6, 5)],
@@ -213,16 +219,16 @@ fn jobs(tier: Tier) -> &'static Vec<Job> {
             for m in &menu {
                 let cfg = cfg3(&m.text, "b", "c", &o);
                 for first in 0..9 {
-                    v.push(Job { tag: format!("U1/{}", m.tag), cfg: cfg.clone(), depth: d1, first, long: false, level: lvl });
+                    v.push(Job { tag: format!("U1/{}", m.tag), cfg: cfg.clone(), depth: d1, first, long: false, level: lvl, conf: None });
                 }
             }
             for i in 0..super::c01::CURATED.len() {
                 let cfg = super::c01::curated_cfg(i);
                 for first in 0..9 {
-                    v.push(Job { tag: format!("U3/{}", super::c01::CURATED[i].0), cfg: cfg.clone(), depth: d3, first, long: false, level: lvl });
+                    v.push(Job { tag: format!("U3/{}", super::c01::CURATED[i].0), cfg: cfg.clone(), depth: d3, first, long: false, level: lvl, conf: None });
                 }
                 if lvl == 0 {
-                    v.push(Job { tag: format!("long/{}", super::c01::CURATED[i].0), cfg, depth: 3, first: 0, long: true, level: 0 });
+                    v.push(Job { tag: format!("long/{}", super::c01::CURATED[i].0), cfg, depth: 3, first: 0, long: true, level: 0, conf: None });
                 }
             }
         }
@@ -338,6 +344,27 @@ fn check(cfg: &str, steps: &[Step], st: &mut Stats) -> Option<(String, String)> 
 
 fn run_job(tier: Tier, idx: usize, st: &mut Stats) {
     let j = &jobs(tier)[idx];
+    if let Some(ci) = j.conf {
+        let t = &super::conform::TRACES[ci];
+        let r = super::conform::check_trace(t);
+        st.evaluations += r.attempts as u64;
+        st.count("conformance_traces", 1);
+        st.count("conformance_attempts", r.attempts as u64);
+        if r.ok {
+            st.count("conformance_ok", 1);
+            st.validated += 1;
+            st.outcome("conformance-ok");
+            st.sample(json!({"conformance": t.tag, "attempts": r.attempts, "real_loop_ticks": r.real_ticks, "twin_ticks": r.twin_ticks, "wall_ms": r.wall_ms}));
+        } else {
+            st.violation(Violation {
+                property: "C07".into(),
+                signature: format!("conformance::{}", t.tag),
+                what: format!("conformance/{}: the real start_processing_loop (real thread, channel and clock; 3 attempts) disagrees with the loop twin: {}", t.tag, r.detail),
+                detail: json!({"kind": "conformance", "cfg": t.cfg, "history": t.tag, "trace": ci}),
+            });
+        }
+        return;
+    }
     if j.first == 0 {
         if Sim::new(&j.cfg).is_err() {
             st.configs_rejected += 1;
@@ -391,6 +418,12 @@ fn run_job(tier: Tier, idx: usize, st: &mut Stats) {
 }
 
 fn replay(d: &serde_json::Value) -> Vec<Violation> {
+    if d.get("kind").and_then(|x| x.as_str()) == Some("conformance") {
+        let ci = d.get("trace").and_then(|x| x.as_u64()).unwrap_or(0) as usize;
+        let t = &super::conform::TRACES[ci.min(super::conform::TRACES.len() - 1)];
+        let r = super::conform::check_trace(t);
+        return if r.ok { vec![] } else { vec![Violation { property: "C07".into(), signature: format!("conformance::{}", t.tag), what: r.detail, detail: d.clone() }] };
+    }
     let cfg = d.get("cfg").and_then(|x| x.as_str()).unwrap_or("");
     let steps = steps_parse(d.get("history").and_then(|x| x.as_str()).unwrap_or(""));
     let mut st = Stats::default();
